@@ -116,6 +116,11 @@ func InBubble(t *testing.T, seed uint64, sched []uint16, f func(w *World)) (pv i
 			// half of the runs have slow goroutines: some parks last many steps
 			s.StallMod = 4 + (seed>>5)%16
 		}
+		if (seed>>9)%4 == 1 {
+			// a quarter of the runs have slow actors: about one in three logical actors (a connection's
+			// serve goroutine, a controller, the application) only runs when nobody else can
+			s.SlowMod = 3
+		}
 		if core.FineGrainedBuild && os.Getenv("VERIF_FINE") != "" {
 			s.Fine = true
 			s.SiteMod = 4 + seed%9
